@@ -28,25 +28,93 @@ func LoadDatabaseFromStream returns (db, err)
   ensures @fails-on-unreadable [C10] err == nil ==> !RdFailed(rd)
   ensures @quotes-first [C09] forall j int :: {cbErr[j]} old(cbLen) <= j && j < cbLen && cbErr[j] != nil ==> j == cbLen - 1 && err == cbErr[j] && (forall i2 int :: {RdLine(rd, i2)} 0 <= i2 && i2 < cbLineNo[j] - 1 ==> !Malformed(rd, i2, cc))
 
+// ---------------------------------------------------------------------------------------------
+// The reporters behind the Reporter interface (closed world: the fourteen types the repository converts to it).
+// RepBuf(r): the buffered / csv writer the reporter writes through; RepInv(r): what its Process and Flush need.
+// ---------------------------------------------------------------------------------------------
+macro RepBuf(r reporter.Reporter) int :=
+  if typeis(r, "*balance.balanceReporter") then cellat(balance.balanceReporter, payload(r)).output
+  else if typeis(r, "*balance.balanceReporterCollapsed") then cellat(balance.balanceReporterCollapsed, payload(r)).output
+  else if typeis(r, "*balance.balanceSingleReporter") then cellat(balance.balanceSingleReporter, payload(r)).output
+  else if typeis(r, "*register.elementByFoodReporter") then cellat(register.elementByFoodReporter, payload(r)).output
+  else if typeis(r, "*register.regReporter") then cellat(register.regReporter, payload(r)).output
+  else if typeis(r, "*register.regReporterTemplate") then cellat(register.regReporterTemplate, payload(r)).output
+  else if typeis(r, "*register.singleFoodReporter") then cellat(register.singleFoodReporter, payload(r)).output
+  else if typeis(r, "*register.singleReporter") then cellat(register.singleReporter, payload(r)).output
+  else if typeis(r, "*report.UnsolvedReporter") then cellat(report.UnsolvedReporter, payload(r)).output
+  else if typeis(r, "*report.TotalReporter") then cellat(report.TotalReporter, payload(r)).output
+  else if typeis(r, "report.QuantityReporter") then cellat(report.QuantityReporter, payload(r)).output
+  else if typeis(r, "*summary.SummaryReporterTemplate") then cellat(summary.SummaryReporterTemplate, payload(r)).output
+  else if typeis(r, "csv.CSVReporter") then cellat(csv.CSVReporter, payload(r)).output
+  else if typeis(r, "*print.PrintReporter") then cellat(print.PrintReporter, payload(r)).output
+  else 0
+
+pred RepInv(r reporter.Reporter) :=
+     r != nil && payload(r) != 0 && RepBuf(r) != 0
+  && (typeis(r, "*balance.balanceReporter") ==> BalInv(ptr(balance.balanceReporter, payload(r))))
+  && (typeis(r, "*balance.balanceReporterCollapsed") ==> BalCInv(ptr(balance.balanceReporterCollapsed, payload(r))))
+  && (typeis(r, "*balance.balanceSingleReporter") ==> BalSInv(ptr(balance.balanceSingleReporter, payload(r))))
+  && (typeis(r, "*register.elementByFoodReporter") ==> EbfInv(ptr(register.elementByFoodReporter, payload(r))))
+  && (typeis(r, "*register.regReporter") ==> DBOk(cellat(register.regReporter, payload(r)).db))
+  && (typeis(r, "*register.singleReporter") ==> DBOk(cellat(register.singleReporter, payload(r)).db))
+  && (typeis(r, "*register.regReporterTemplate") ==> cellat(register.regReporterTemplate, payload(r)).template != nil && DBIs(cellat(register.regReporterTemplate, payload(r)).db))
+  && (typeis(r, "*summary.SummaryReporterTemplate") ==> cellat(summary.SummaryReporterTemplate, payload(r)).template != nil && DBIs(cellat(summary.SummaryReporterTemplate, payload(r)).db))
+  && (typeis(r, "*report.UnsolvedReporter") ==> UnsInv(ptr(report.UnsolvedReporter, payload(r))))
+  && (typeis(r, "*report.TotalReporter") ==> TotInv(cellat(report.TotalReporter, payload(r))))
+  && (typeis(r, "report.QuantityReporter") ==> cellat(report.QuantityReporter, payload(r)).accumulator != nil)
+
+// the recipe book of a reporter that reads resolved element lists is older than reference lo
+pred RepBookBelow(r reporter.Reporter, lo int) :=
+     (typeis(r, "*balance.balanceSingleReporter") ==> DBBelow(cellat(balance.balanceSingleReporter, payload(r)).db, lo))
+  && (typeis(r, "*register.regReporterTemplate") ==> DBBelow(cellat(register.regReporterTemplate, payload(r)).db, lo))
+  && (typeis(r, "*summary.SummaryReporterTemplate") ==> DBBelow(cellat(summary.SummaryReporterTemplate, payload(r)).db, lo))
+  && (typeis(r, "*report.TotalReporter") ==> DBBelow(cellat(report.TotalReporter, payload(r)).db, lo))
+
 // The callback of WalkNodesInStream: stops at the first error (parse error, heading that is not a date, filter,
 // merge or reporter error) and hands it back; it never stops the walk without an error, so a successful walk
 // has seen every record of the log.
 func WalkNodesInStream$1
-  props C08 C09 C10
+  props C08 C09 C10 C17
   refines parser.StopOnErr
-  modifies *
+  // the frame is precise: its own captured variables and what the fourteen reporters may change - in particular
+  // neither the recipe book nor any list of elements
+  modifies t, ok, ln
+  modifies heap(shared.TreeNode), maps(string, *shared.TreeNode), heap(balance.balanceSingleReporter), arrays(float64), maps(string, shared.AccValues), maps(string, bool), maps(string, float64)
   dyncall 1 filter.LogNodeFilter
-  captured r != nil
-  captured filter == nil || *filter != nil
+  requires @reporter RepInv(r) && (filter == nil || *filter != nil)
+  modifies ghost(accKey, accP, accN, accH, bufSticky, sinkFailed, sinkPend, prLen, prSink, prArg, prArgs, tnodes, tdepth, tmax, tmapOf)
+  ensures @rep-buf [C17 C08] r == old(r) && RepBuf(r) == old(RepBuf(r))
+  ensures @rep-sink [C17] BufStep(RepBuf(r))
+  ensures @rep-inv [C17 C08] RepInv(r)
+  ensures @filter-kept filter == old(filter) && (filter != nil ==> *filter == old(*filter))
+  ensures @book-kept typeis(r, "*balance.balanceSingleReporter") ==> cellat(balance.balanceSingleReporter, payload(r)).db == old(cellat(balance.balanceSingleReporter, payload(r)).db)
+  ghost after call 1 Process {
+    assert @sink-balanceReporter typeis(r, "*balance.balanceReporter") ==> BufStep(cellat(balance.balanceReporter, payload(r)).output)
+    assert @sink-balanceReporterCollapsed typeis(r, "*balance.balanceReporterCollapsed") ==> BufStep(cellat(balance.balanceReporterCollapsed, payload(r)).output)
+    assert @sink-balanceSingleReporter typeis(r, "*balance.balanceSingleReporter") ==> BufStep(cellat(balance.balanceSingleReporter, payload(r)).output)
+    assert @sink-elementByFoodReporter typeis(r, "*register.elementByFoodReporter") ==> BufStep(cellat(register.elementByFoodReporter, payload(r)).output)
+    assert @sink-regReporter typeis(r, "*register.regReporter") ==> BufStep(cellat(register.regReporter, payload(r)).output)
+    assert @sink-regReporterTemplate typeis(r, "*register.regReporterTemplate") ==> BufStep(cellat(register.regReporterTemplate, payload(r)).output)
+    assert @sink-singleFoodReporter typeis(r, "*register.singleFoodReporter") ==> BufStep(cellat(register.singleFoodReporter, payload(r)).output)
+    assert @sink-singleReporter typeis(r, "*register.singleReporter") ==> BufStep(cellat(register.singleReporter, payload(r)).output)
+    assert @sink-UnsolvedReporter typeis(r, "*report.UnsolvedReporter") ==> BufStep(cellat(report.UnsolvedReporter, payload(r)).output)
+    assert @sink-TotalReporter typeis(r, "*report.TotalReporter") ==> BufStep(cellat(report.TotalReporter, payload(r)).output)
+    assert @sink-QuantityReporter typeis(r, "report.QuantityReporter") ==> BufStep(cellat(report.QuantityReporter, payload(r)).output)
+    assert @sink-SummaryReporterTemplate typeis(r, "*summary.SummaryReporterTemplate") ==> BufStep(cellat(summary.SummaryReporterTemplate, payload(r)).output)
+    assert @sink-CSVReporter typeis(r, "csv.CSVReporter") ==> BufStep(cellat(csv.CSVReporter, payload(r)).output)
+    assert @sink-PrintReporter typeis(r, "*print.PrintReporter") ==> BufStep(cellat(print.PrintReporter, payload(r)).output)
+  }
 
 // WalkNodesInStream fails iff the log has a malformed line, cannot be read completely, or a record is rejected
 // by the callback above; the error of a malformed line is that of the first one
 func WalkNodesInStream returns (err)
   props C08 C09 C10
-  calluse ParseStreamCallback#1 stoponerr
-  requires @reporter r != nil && (filter == nil || *filter != nil)
+  calluse ParseStreamCallback#1 walk
+  requires @reporter RepInv(r) && (filter == nil || *filter != nil)
   modifies *
-  modifies ghost(cbLen, cbErr, cbNode, cbStop, cbRet, cbLineNo, cbLine, cbHeader, cbElems, cbNElems, scRd, scPos, privLo, evOf)
+  modifies ghost(cbLen, cbErr, cbNode, cbStop, cbRet, cbLineNo, cbLine, cbHeader, cbElems, cbNElems, scRd, scPos, privLo, evOf, accKey, accP, accN, accH, bufSticky, sinkFailed, sinkPend, prLen, prSink, prArg, prArgs, tnodes, tdepth, tmax, tmapOf)
+  let B := RepBuf(r)
+  ensures @reporter [C17 C08] RepInv(r) && RepBuf(r) == B && BufStep(B)
   let rd := payload(logStream)
   let cc := pc.CommentChar
   ensures @fails-on-malformed [C09] err == nil ==> (forall i int :: {RdLine(rd, i)} 0 <= i && i < RdN(rd) ==> !Malformed(rd, i, cc))
